@@ -13,6 +13,9 @@ from ..runner import short
 ID = "C04"
 N = {"quick": 32000, "thorough": 1000000}
 TIME_BUDGET = {"quick": 45, "thorough": 660}
+# the 10x confirmation of an exhausted step budget takes ~35 s of LINE callbacks (more on a loaded machine): the
+# wall-clock watchdog must not cut it (a cut confirmation used to end as a silent 'inconclusive case' and exit 0)
+CASE_WALL = {"quick": 240, "thorough": 240}
 MIN_NONTRIVIAL = {"quick": 300, "thorough": 3000}
 STEP_LIMIT = 3_000_000
 RULE = ("cases = random TypeSpec (as C01, incl. abstract origins, data classes, logical trees) entered through every route "
